@@ -171,6 +171,59 @@ Theorem C20_findRelated_spec : forall f anc t,
 Proof. exact findRelated_spec. Qed.
 Print Assumptions C20_findRelated_spec.
 
+(** ** further public routes (route audit): a route only changes how the request is made *)
+
+(** a depth-1 search equals the filtered enumeration sections(filter) / sources(filter) *)
+Theorem C20_depth1_search_is_filtered_enumeration : forall f,
+  (forall t, Section_findSections f 1 t = Ok (Section_sections f t)) /\
+  (forall roots, File_findSections f 1 roots = Ok (File_sections f roots)) /\
+  (forall t, Source_findSources f 1 t = Ok ((filter f [t] ++ Source_sources f t)%list)) /\
+  (forall b, Block_findSources f 0 (b_sources b) = Ok (Block_sources f b)).
+Proof.
+  exact (fun f => conj (sections_is_depth1 f) (conj (file_sections_is_depth1 f) (conj (sources_is_depth1 f) (block_sources_is_depth0 f)))).
+Qed.
+Print Assumptions C20_depth1_search_is_filtered_enumeration.
+
+(** the whole-file back references are the concatenation of the block-restricted overloads, which are exact;
+    a none Block yields nothing *)
+Theorem C20_referring_per_block : forall f sec_id,
+  Section_referringDataArrays f sec_id = flat_map (fun b => Section_referringDataArrays_in f sec_id (Some b)) (f_blocks f) /\
+  Section_referringTags f sec_id = flat_map (fun b => Section_referringTags_in f sec_id (Some b)) (f_blocks f) /\
+  Section_referringMultiTags f sec_id = flat_map (fun b => Section_referringMultiTags_in f sec_id (Some b)) (f_blocks f).
+Proof. exact referring_whole_file_is_per_block. Qed.
+Print Assumptions C20_referring_per_block.
+
+Theorem C20_referring_in_block_exact : forall f sec_id ob, height_ok (f_sections f) ->
+  In sec_id (map tid (flat_map all_nodes (f_sections f))) ->
+  Section_referringDataArrays_in f sec_id ob = spec_ref_ents_block b_arrays sec_id ob /\
+  Section_referringTags_in f sec_id ob = spec_ref_ents_block b_tags sec_id ob /\
+  Section_referringMultiTags_in f sec_id ob = spec_ref_ents_block b_mtags sec_id ob.
+Proof. exact referring_in_exact. Qed.
+Print Assumptions C20_referring_in_block_exact.
+
+Theorem C20_referring_sources_in_block_exact : forall f sec_id ob, height_ok (f_sections f) ->
+  (forall b, ob = Some b -> height_ok (b_sources b)) ->
+  In sec_id (map tid (flat_map all_nodes (f_sections f))) ->
+  exists r, Section_referringSources_opt f sec_id ob = Ok r /\ Permutation r (spec_ref_sources_block sec_id ob).
+Proof. exact referring_sources_in_exact. Qed.
+Print Assumptions C20_referring_sources_in_block_exact.
+
+(** MetadataFilter / SourceFilter handed to a search or an enumeration by the user are the pointwise link tests *)
+Theorem C20_user_link_filters_exact :
+  (forall roots sec_id s, height_ok roots -> In sec_id (map tid (flat_map all_nodes roots)) ->
+     SourceMetadataFilter roots sec_id s = spec_meta_filter sec_id s) /\
+  (forall s id, looksLikeUUID id = true -> (forall c, In c (kids s) -> n_name (label c) <> id) ->
+     SourceSourceFilter id s = has_kid id s) /\
+  (forall b src_id, Source_referringDataArrays b src_id = Block_dataArrays (SourceFilter src_id) b /\
+                    Source_referringTags b src_id = Block_tags (SourceFilter src_id) b /\
+                    Source_referringMultiTags b src_id = Block_multiTags (SourceFilter src_id) b).
+Proof. exact (conj SourceMetadataFilter_exact (conj Source_hasSource_exact source_referring_is_enumeration)). Qed.
+Print Assumptions C20_user_link_filters_exact.
+
+Theorem C20_exact_type_match_is_loose_match : forall ty e, TypeFilter ty e = true -> TypeFilterLoose ty e = true.
+Proof. exact TypeFilter_implies_loose. Qed.
+Print Assumptions C20_exact_type_match_is_loose_match.
+
 (** ** non-vacuity: a concrete tree on which the searches return different, non-empty answers *)
 Definition nv_leaf (i n ty : string) : tree := Node (mkNode i n ty [] None None) [].
 Definition nv_tree : tree :=
@@ -191,6 +244,8 @@ Example C20_nonvacuous :
   map tid (descendants nv_tree) = ["a"; "c"; "d"; "b"; "e"]%string /\
   match Section_inheritedProperties [nv_tree; nv_other] nv_tree with Ok r => map fst r | _ => [] end = ["p1"; "p2"; "p4"]%string /\
   match Section_findRelated (NameFilter "C") [] nv_tree with Ok r => map tid r | _ => [] end = ["c"; "e"]%string /\
+  map tid (Section_sections (TypeFilterLoose "T") nv_tree) = ["b"]%string /\
+  map tid (Section_sections (TypeFilterLoose "U") nv_tree) = ["a"]%string /\
   match Section_findRelated (NameFilter "B") [Node (mkNode "a" "A" "u" [] None None) [nv_leaf "c" "C" "u"; nv_leaf "d" "D" "t"]; nv_tree]
                             (nv_leaf "c" "C" "u") with Ok r => map tid r | _ => [] end = ["b"]%string.
 Proof. vm_compute. repeat split. Qed.
